@@ -136,6 +136,8 @@ def show(t, depth=0):
         return "!%s" % show(t[1], depth + 1)
     if k == "iv":
         return "k%d" % t[1]
+    if k == "var":
+        return "_%s" % (t[1] if isinstance(t[1], int) else "item%s" % (t[1][1],))
     if k == "call":
         return "%s(%s)" % (t[1].split("::")[-1], ", ".join(show(a, depth + 1) for a in t[2]))
     return k
@@ -151,6 +153,7 @@ class Facts:
         self.diff = []     # (x, y, c): x - y <= c   (None is the zero atom)
         self.neq = []      # (x, kx, y, ky): x + kx != y + ky
         self.log = []
+        self.signed = set()  # atoms that may be negative (default: every atom is an unsigned quantity)
 
     def copy(self):
         f = Facts()
@@ -158,6 +161,7 @@ class Facts:
         f.diff = list(self.diff)
         f.neq = list(self.neq)
         f.log = list(self.log)
+        f.signed = set(self.signed)
         return f
 
     def assume_cat(self, term, value=None, not_values=None):
@@ -226,7 +230,7 @@ class Facts:
         base = [[0 if i == j else INF for j in range(n)] for i in range(n)]
         # d[i][j] = least c with atom_i - atom_j <= c ; unsigned atoms are >= 0
         for a in atoms:
-            if a is not None:
+            if a is not None and a not in self.signed:
                 base[ix[None]][ix[a]] = min(base[ix[None]][ix[a]], 0)
         for x, y, c in self.diff:
             base[ix[x]][ix[y]] = min(base[ix[x]][ix[y]], c)
